@@ -1065,8 +1065,18 @@ impl TieredEngine {
     where
         F: Fn(&std::collections::HashMap<String, String>) -> bool,
     {
-        // Scan hot tier
-        let hot_ids = self.hot_tier.scan(&predicate);
+        // Scan hot tier. The mirror's metadata can be stale (e.g. after a bulk load that
+        // bypasses the hot tier), so a mirrored document is only selected when its canonical
+        // cold-tier metadata matches too; mirror-only orphans are still scrubbed.
+        let hot_ids: Vec<u64> = self
+            .hot_tier
+            .scan(&predicate)
+            .into_iter()
+            .filter(|id| match self.cold_tier.fetch_metadata(*id) {
+                Some(canonical) => predicate(&canonical),
+                None => true,
+            })
+            .collect();
 
         // Scan cold tier
         let cold_ids = self.cold_tier.scan(&predicate);
@@ -1086,9 +1096,17 @@ impl TieredEngine {
     /// Hot tier is scanned (bounded size). Cold tier uses an inverted index fast path
     /// for common filter shapes and falls back to scan for `Range`.
     pub fn batch_delete_by_metadata_filter(&self, filter: &MetadataFilter) -> Result<u64> {
-        let hot_ids = self
+        // The mirror's metadata can be stale; re-check hot candidates against the canonical
+        // cold-tier metadata (mirror-only orphans are still scrubbed).
+        let hot_ids: Vec<u64> = self
             .hot_tier
-            .scan(|meta| crate::metadata_filter::matches(filter, meta));
+            .scan(|meta| crate::metadata_filter::matches(filter, meta))
+            .into_iter()
+            .filter(|id| match self.cold_tier.fetch_metadata(*id) {
+                Some(canonical) => crate::metadata_filter::matches(filter, &canonical),
+                None => true,
+            })
+            .collect();
 
         let cold_ids = self.cold_tier.ids_for_metadata_filter(filter);
 
